@@ -520,8 +520,10 @@ def analyse(fb, spec, scope=None):
                 outside(cls, fr["getter"], e, "flag accessor")
     # ---- data offsets
     for cls, off in sorted(spec.get("data_offsets", {}).items()):
+        if scope is not None and not scope(cls, "<data-offset>"):
+            continue  # (an obligation of the layout properties; importers of single accessors do not depend on it)
         rec = header_view_record(fb, cls)
-        g = find_method(fb, cls, "getData", 0) or find_method(fb, cls, "getStreamIdCountPtr", 0)
+        g = find_method(fb, cls, "getData", 0) or find_method(fb, cls, "getStreamIdCountPtr", 0) or find_method(fb, cls, "getStreamIdsCount", 0)
         if cls.endswith("CaptureModulePayload") and g is None:
             g = find_method(fb, cls, "getDeviceDescription", 0)
         if g is None:
